@@ -5,7 +5,7 @@ For every <dir>/patch*.diff (default: /verif/seeded/*/patch.diff and /tmp/seed/o
 to a scratch worktree of /repo (never to /repo itself), every selected check is run with VERIF_REPO pointing at the
 scratch tree, and the rules that fired are listed.  --own runs only the check of the property the seed is filed under."""
 import glob, json, os, re, subprocess, sys
-args = sys.argv[1:]
+args = [a for a in sys.argv[1:] if a != "--benign"]
 dirs = []
 while "--dir" in args:
     i = args.index("--dir"); dirs.append(args[i + 1]); del args[i:i + 2]
@@ -54,6 +54,16 @@ for p in patches:
                 fired[pr] = {"exit": rc, "rules": rules, "first": keys[:2] or out.strip().splitlines()[-2:]}
     own_hit = seed_prop in fired and fired[seed_prop]["exit"] == 1
     any_hit = any(v["exit"] == 1 for v in fired.values())
+    if "--benign" in sys.argv:
+        inc = any(v["exit"] not in (0, 1) for v in fired.values())
+        print("%s %-40s %s" % ("FALSE-ALARM" if any_hit else ("INCONCLUSIVE" if inc else "silent"), p.replace("/tmp/benign/out/", ""),
+                               "; ".join("%s:%s%s" % (k, ",".join(v["rules"]), "" if v["exit"] == 1 else "(exit %d)" % v["exit"]) for k, v in sorted(fired.items()))))
+        for k, v in sorted(fired.items()):
+            for l in v["first"][:3]:
+                print("        %s" % l[:300])
+        sys.stdout.flush()
+        results[p] = fired
+        continue
     print("%s %-40s own=%s any=%s  %s" % ("CAUGHT" if any_hit else "MISSED", p.replace("/tmp/seed/out/", "").replace("/verif/seeded/", "seeded:"), own_hit, any_hit,
                                      "; ".join("%s:%s%s" % (k, ",".join(v["rules"]), "" if v["exit"] == 1 else "(exit %d)" % v["exit"]) for k, v in sorted(fired.items()))))
     for k, v in sorted(fired.items()):
